@@ -20,7 +20,8 @@ tail -3 /tmp/evalmut.with.$$
 if [ "${FULL:-0}" = "1" ]; then
   echo "--- existing suite WITH the change (demo files moved away)"
   mkdir -p /tmp/evalmut.hold.$$; mv zz_demo*_test.go /tmp/evalmut.hold.$$/ 2>/dev/null
-  $GOENV go test -vet=off -count=1 -timeout 25m ./... > /tmp/evalmut.suite.$$ 2>&1; suite=$?
+  # private network namespace: the suite binds fixed loopback ports
+  unshare -n sh -c "ip link set lo up; $GOENV go test -vet=off -count=1 -timeout 25m ./..." > /tmp/evalmut.suite.$$ 2>&1; suite=$?
   tail -3 /tmp/evalmut.suite.$$
   mv /tmp/evalmut.hold.$$/* . 2>/dev/null; rmdir /tmp/evalmut.hold.$$
 else suite=skipped; fi
